@@ -22,3 +22,5 @@ more.register(globals(), {"C06", "C02", "C03", "C09"}, ["par3_mixed", "map_fail_
                "par_longform": [("_fail", "fa or fb")]})
 
 more.register(globals(), {"C06", "C02", "C03", "C09"}, ["branch_retry_kinds", "late_nested"], {"branch_retry_kinds": [("_fail", "bfail")], "late_nested": [("_fail", "bfail")]})
+
+more.register(globals(), {"C06", "C02", "C03", "C09"}, ["fan_catch_paths"])
